@@ -91,8 +91,10 @@ def run_trace(job):
                 return
             for fr_ in link.parse_frames(data)[0]:
                 if fr_.get("stype") == 0 and fr_["s"] == 1 and fr_["f"] == 13:
-                    if h.communication_state.current.name != "WAIT_CRA":
-                        continue          # a stale request that was queued while the link was down, not this attempt's
+                    if h.communication_state.current.name != "WAIT_CRA" or ep.cs != "SEL":
+                        # a stale request that was queued while the link was down, not this attempt's -- or one that goes out on a
+                        # new connection before it is selected (a peer rejects data messages then, it does not answer them)
+                        continue
                     ack, arm["ack"] = arm["ack"], None
                     arm["snap"] = {"frames": data_frames(None), "comm": len(comm), "cb": len(cbs), "cm": h.communication_state.current.name,
                                    "now": s.now}
